@@ -92,7 +92,7 @@ func (se *SessionExecutor) handleQuery(reqCtx *util.RequestContext, sql string) 
 func (se *SessionExecutor) checkSQLAllowed(reqCtx *util.RequestContext, sql string) error {
 	stmtType := parser.Preview(sql)
 	reqCtx.SetStmtType(stmtType)
-	if isSQLNotAllowedByUser(se, stmtType) {
+	if isSQLNotAllowedByUser(se, stmtType, sql) {
 		return fmt.Errorf("write DML is now allowed by read user")
 	}
 	ns := se.GetNamespace()
